@@ -16,7 +16,7 @@ from typing import Dict, List, Optional, Set, Tuple
 
 from ..cfg import cfg_of
 from ..flow import defuse, names_in
-from ..guards import path_conditions, src
+from ..guards import path_conditions, rejects, src
 from ..index import AnalysisError, FuncInfo, Index, Module, call_name, dotted, enclosing_stmt, fold_const, is_const, parents, walk_no_nested
 from ..optflow import registered_passes
 from ..report import Results
@@ -168,15 +168,15 @@ def run(res: Results, idx: Index, tier: str) -> None:
     rn = [n for c in renames for n in g.nodes_of(enclosing_stmt(c))]
     guards = [n for n in walk_no_nested(f.node) if isinstance(n, ast.If) and any(isinstance(s, ast.Raise) for s in n.body)]
     wanted = {
-        "input-count": lambda t: "input_names" in names_in(t) and any(isinstance(c, ast.Call) and (call_name(c) or "") == "len" for c in ast.walk(t)),
-        "output-count": lambda t: "output_names" in names_in(t) and any(isinstance(c, ast.Call) and (call_name(c) or "") == "len" for c in ast.walk(t)),
+        "input-count": lambda t: isinstance(t, ast.Compare) and isinstance(t.ops[0], ast.NotEq) and "input_names" in names_in(t) and any(isinstance(c, ast.Call) and (call_name(c) or "") == "len" for c in ast.walk(t)),
+        "output-count": lambda t: isinstance(t, ast.Compare) and isinstance(t.ops[0], ast.NotEq) and "output_names" in names_in(t) and any(isinstance(c, ast.Call) and (call_name(c) or "") == "len" for c in ast.walk(t)),
         "one-value-two-names": lambda t: isinstance(t, ast.Compare) and isinstance(t.ops[0], ast.NotEq) and "target" in names_in(t),
-        "unique-targets": lambda t: any(isinstance(c, ast.Call) and (call_name(c) or "") == "set" for c in ast.walk(t)) and any(isinstance(c, ast.Call) and (call_name(c) or "") == "len" for c in ast.walk(t)),
+        "unique-targets": lambda t: isinstance(t, ast.Compare) and isinstance(t.ops[0], ast.NotEq) and any(isinstance(c, ast.Call) and (call_name(c) or "") == "set" for c in ast.walk(t)) and any(isinstance(c, ast.Call) and (call_name(c) or "") == "len" for c in ast.walk(t)),
         "collision-with-existing": lambda t: isinstance(t, ast.Name) and "collision" in t.id.lower(),
     }
     for wname, pred in wanted.items():
         key = f"{UI}::_apply_custom_io_names_on_ir::{wname}"
-        cands = [gd for gd in guards if pred(gd.test)]
+        cands = [gd for gd in guards if rejects(gd.test, pred)]
         if not cands:
             res.violation("R-C05c", f"{UI}:{f.node.lineno}", key, f"the `{wname}` check (an `if …: raise`) is gone: invalid custom names reach rename_values", f.qualname)
             continue
